@@ -309,6 +309,11 @@ def run(ctx, env):
                "%s of %s.%s %s" % (w["kind"], w["adt"].rsplit("::", 1)[1], w["field"], "belongs to a template arm of FlowSetBody::parse" if okw else "happens outside the template arms: " + whyw),
                site=w["body"].line(w["block"]))
     ctx.floor("R7.5", "crate", "cache mutation sites", nmut, 4)
+    # ... and no cache map (or the parser that holds it) is overwritten wholesale from anywhere: a snapshot / restore
+    # around a failing packet changes the caches on the unknown-id path (seed r12-c07)
+    for (vb, vsite, vdetail, vwhy) in ca.violations:
+        ctx.ob("R7.5", vb.path, "mutation-in-template-arm:%s" % vdetail, False,
+               "%s in %s: the template caches are changed by something that is not a template record (an unknown-id data flowset can trigger it or be followed by it)" % (vwhy, vb.path), site=vsite)
     # R7.3 — form-independent: every cache lookup (`get`) on the parse path sits in a decoder whose callers are all
     # guarded (R7.1), so whatever the lookup falls back to when the id is missing (unwrap_or_default(), a `None` arm,
     # unwrap_or(&default)) is unreachable
